@@ -11,7 +11,7 @@ def vf_jobs(tier):
     nl=2 if q else 3
     for hs in (0,1):
         J.append(Job('F-fetch-hs%d'%hs,'vf/f_fetch.c',defs=['-DENV_BUDGET=%d'%(4 if q else 4),'-DNL=%d'%nl,'-DHS=%d'%hs],cuts={'vorbisfile.c':['_get_next_page','_fetch_headers']},unwind=4+3,unwindset=[('env_fill_page',None,28)],object_bits=12,
-            witnesses=['link changed','position set from a granule position','packet processed','streaming handle']+(['position set at half rate with samples pending'] if hs else []),models=ENV,tags=(['C07','C08','C20'] if hs else ['C03','C07','C09','C12'])+([] if q else ['C03','C09','C08']),
+            witnesses=['link changed','position set from a granule position','packet processed','streaming handle']+(['position set at half rate with samples pending'] if hs else []),models=ENV,tags=(['C07','C08','C20'] if hs else ['C03','C07','C09','C12','C10'])+([] if q else ['C03','C09','C08']),
             functions=['_fetch_and_process_packet','_make_decode_ready','_decode_clear'],bounds='<=%d links, <=%d framing events per call; arbitrary V_vf state; half-rate setting %d'%(nl,4,hs),weight=5,mem_est=11))
     J.append(Job('F-halfrate','vf/f_halfrate.c',defs=['-DNL=3'],cuts={'vorbisfile.c':['ov_pcm_seek']},unwind=5,object_bits=12,
         witnesses=['refused','accepted','re-seek','refusal left the running decoder alone'],models=ENV,tags=['C20','C03'],functions=['ov_halfrate','ov_halfrate_p'],bounds='<=3 links, any subset refusing, any prior state'))
@@ -23,6 +23,8 @@ def vf_jobs(tier):
         J.append(Job('lapseek-%s'%('time' if ds else 'pcm'),'vf/seek_lap.c',defs=(['-DDSEEK'] if ds else []),cuts={'vorbisfile.c':['_ov_initset','_ov_initprime','_ov_getlap','_ov_splice']},unwind=5,object_bits=12,
             witnesses=['rejected','seek failed','seek crossed into the other link'],models=ENV,tags=['C19','C03'],functions=['_ov_d_seek_lap' if ds else '_ov_64_seek_lap','ov_info','ov_halfrate_p'],
             bounds='2 links, short blocks 64..4096, channels 1..3, every error return of every step'))
+    J.append(Job('splice','vf/splice.c',defs=['-DCAP=%d'%(3 if q else 4)],unwind=6,object_bits=12,witnesses=['old block shorter','new block shorter','channels fade in from silence'],models=[],tags=['C19','C03'],
+        functions=['_ov_splice'],bounds='half blocks of 1..%d samples (scaled), 1..3 channels on either side, arbitrary float samples and window coefficients'%(3 if q else 4)))
     J.append(Job('F-crosslap','vf/f_crosslap.c',cuts={'vorbisfile.c':['_ov_initset','_ov_initprime','_ov_getlap','_ov_splice']},unwind=5,object_bits=12,
         witnesses=['rejected','priming failed','spliced with differing half-rate flags'],models=ENV,tags=['C19','C03'],functions=['ov_crosslap','ov_info','ov_halfrate_p'],bounds='two single-link handles, short blocks 64..4096, channels 1..3'))
     for npg in ([2] if q else [2,3]):
